@@ -230,6 +230,16 @@ class OrderAnalysis:
                             out.append(self._site(mname, qn, node.value, el, 'star', safe, 'unpacked into a set display' if safe else '', node))
         return out
 
+    def _module_of(self, node) -> str | None:
+        parents = self._all_parents()
+        cur = node
+        while cur in parents:
+            cur = parents[cur]
+        for mname, mi in self.py.modules.items():
+            if mi.tree is cur:
+                return mname
+        return None
+
     def _site(self, mname, qn, expr, el, consumer, safe, why, node) -> Site:
         key = self.key_of(expr)
         if el.split('[')[0].strip() in DETERMINISTIC_ELEMS or el in ('int',):
@@ -248,9 +258,148 @@ class OrderAnalysis:
         return type(e).__name__
 
     # consumers --------------------------------------------------------------
+    def _all_parents(self):
+        if getattr(self, '_parents_cache', None) is None:
+            par = {}
+            for mi in self.py.modules.values():
+                for p in ast.walk(mi.tree):
+                    for ch in ast.iter_child_nodes(p):
+                        par[ch] = p
+            self._parents_cache = par
+        return self._parents_cache
+
+    def _dataclass_fields(self, ci) -> list[str]:
+        """constructor parameter order of a class whose __init__ is generated by @dataclass (its own or the nearest decorated
+        ancestor's): fields of the decorated classes from the root down, a redeclared field keeps its place"""
+        chain = self.py.mro(ci)
+        owner = None
+        for c in chain:
+            if '__init__' in c.methods:
+                return []
+            if any(d.split('(')[0].split('.')[-1] == 'dataclass' for d in c.decorators):
+                owner = c
+                break
+        if owner is None:
+            return []
+        out: list[str] = []
+        for c in reversed(self.py.mro(owner)):
+            if not any(d.split('(')[0].split('.')[-1] == 'dataclass' for d in c.decorators):
+                continue
+            for n, _t in c.fields:
+                if n not in out:
+                    out.append(n)
+        return out
+
+    def _field_reads_order_free(self, field: str, depth: int):
+        """every read of `.field` anywhere in the package (by name: an over-approximation of the reads of that class) ends in an
+        order-free consumer"""
+        parents = self._all_parents()
+        n = 0
+        for mi in self.py.modules.values():
+            for node in ast.walk(mi.tree):
+                if isinstance(node, ast.Attribute) and node.attr == field and isinstance(node.ctx, ast.Load):
+                    par = parents.get(node)
+                    if isinstance(par, ast.Call) and par.func is node:
+                        continue                      # a method of that name, not the field
+                    n += 1
+                    ok, _why = self._climb(node, parents, depth + 1)
+                    if not ok:
+                        return False, n
+        return True, n
+
+    def _climb(self, node, parents=None, depth=0):
+        """follow the value of `node` through order-preserving wrappers (map / filter / list / generator ...), locals that only
+        name it, the return of a helper to its call sites, and a constructor argument to the reads of that field, to what finally
+        consumes it; -> (True, why) if no consumer depends on the order"""
+        if depth > 4:
+            return False, ''
+        parents = self._all_parents() if node in self._all_parents() else (parents or {})
+        cur = node
+        for _ in range(8):
+            par = parents.get(cur)
+            if par is None:
+                return False, ''
+            if isinstance(par, ast.comprehension):
+                comp = parents.get(par)
+                if isinstance(comp, ast.SetComp):
+                    return True, 'feeds a set comprehension'
+                if isinstance(comp, (ast.GeneratorExp, ast.ListComp)) and par.iter is cur:
+                    cur = comp
+                    continue
+                return False, ''
+            if isinstance(par, ast.Starred):
+                cur = par
+                continue
+            if isinstance(par, ast.Call):
+                if isinstance(par.func, ast.Name):
+                    if par.func.id in ORDER_FREE_CONSUMERS and not _keyed_sort(par):
+                        return True, f'finally consumed by {par.func.id}()'
+                    if par.func.id in ('map', 'filter', 'list', 'tuple', 'iter', 'reversed', 'zip', 'enumerate', 'chain'):
+                        cur = par
+                        continue
+                    # argument of the constructor of a package class: the value lives on in that field
+                    ci = self.py.find_class(par.func.id, self._module_of(par))
+                    if ci is not None and cur in par.args and not any(isinstance(a, ast.Starred) for a in par.args):
+                        flds = self._dataclass_fields(ci)
+                        i = par.args.index(cur)
+                        if i < len(flds):
+                            ok, n = self._field_reads_order_free(flds[i], depth)
+                            if ok and n:
+                                return True, f'stored in the field `{flds[i]}` of {ci.name}, whose {n} reads in the package are all order-free (len / set / membership)'
+                        return False, ''
+                if isinstance(par.func, ast.Attribute) and par.func.attr in ('update', 'union', 'intersection', 'difference', 'issubset',
+                                                                               'issuperset', 'isdisjoint', 'symmetric_difference'):
+                    return True, f'finally consumed by set.{par.func.attr}()'
+                return False, ''
+            if isinstance(par, ast.Assign) and len(par.targets) == 1 and isinstance(par.targets[0], ast.Name) and par.value is cur:
+                # a local that only names the value: every later use of it must end in an order-free consumer
+                name = par.targets[0].id
+                fn = par
+                while fn is not None and not isinstance(fn, (ast.FunctionDef, ast.AsyncFunctionDef)):
+                    fn = parents.get(fn)
+                if fn is None:
+                    return False, ''
+                stores = [n for n in ast.walk(fn) if isinstance(n, ast.Name) and n.id == name and isinstance(n.ctx, ast.Store)]
+                uses = [n for n in ast.walk(fn) if isinstance(n, ast.Name) and n.id == name and isinstance(n.ctx, ast.Load)]
+                if len(stores) != 1 or not uses:
+                    return False, ''
+                whys = []
+                for u in uses:
+                    ok, why = self._climb(u, parents, depth + 1)
+                    if not ok:
+                        return False, ''
+                    whys.append(why)
+                return True, f'named `{name}` and then ' + whys[0]
+            if isinstance(par, ast.Return) and par.value is cur:
+                # the result of a helper: every call site of the helper must consume it order-free
+                g = par
+                while g is not None and not isinstance(g, (ast.FunctionDef, ast.AsyncFunctionDef)):
+                    g = parents.get(g)
+                if g is None or g.name.startswith('__'):
+                    return False, ''
+                n = 0
+                for mi in self.py.modules.values():
+                    for c in ast.walk(mi.tree):
+                        if isinstance(c, ast.Call) and ((isinstance(c.func, ast.Name) and c.func.id == g.name)
+                                                        or (isinstance(c.func, ast.Attribute) and c.func.attr == g.name)):
+                            n += 1
+                            ok, why = self._climb(c, parents, depth + 1)
+                            if not ok:
+                                return False, ''
+                if n == 0:
+                    return False, ''
+                return True, f'returned by {g.name}, whose {n} call sites ' + why
+            if isinstance(par, ast.AugAssign) and isinstance(par.op, (ast.BitOr, ast.BitAnd, ast.Sub)) and par.value is cur:
+                return False, ''
+            return False, ''
+        return False, ''
+
     def comp_consumer(self, comp, parents):
         if isinstance(comp, ast.SetComp):
             return True, 'builds a set'
+        ok, why = self._climb(comp, parents)
+        if ok:
+            return True, why
         par = parents.get(comp)
         if isinstance(par, ast.Call) and isinstance(par.func, ast.Name) and par.func.id in ORDER_FREE_CONSUMERS \
                 and not _keyed_sort(par):
@@ -260,6 +409,9 @@ class OrderAnalysis:
         return False, ''
 
     def call_consumer(self, call, parents):
+        ok, why = self._climb(call, parents)
+        if ok:
+            return True, why
         par = parents.get(call)
         if isinstance(par, ast.Call) and isinstance(par.func, ast.Name) and par.func.id in ORDER_FREE_CONSUMERS \
                 and not _keyed_sort(par):
